@@ -70,9 +70,18 @@ def check(run):
         run.check(okg, r, gate.short, 'runs only when contracts are not ignored: ' + (q.unparse(x.func)[:40] if isinstance(x, ast.Call) else type(x).__name__),
                   'reachable with ignore_contract=True', x)
     run.floor(n_eff, 2, r, 'calls / raises / loops in the gate function')
+    from ..inline import known_functions
+    known = known_functions() or set()
+
+    def new_api(fi_):
+        """a function the reference tree does not have and that nothing in the package calls: an addition to the API, outside what today's callers can reach"""
+        qual_ = '%s:%s' % (fi_.module.name, fi_.short if fi_.cls is not None else fi_.name)
+        return bool(known) and qual_ not in known and not prog.callers_of(fi_) and not fi_.name.startswith('__')
     nwr = 0
     for fi in prog.functions():
         if fi.outer is not None:
+            continue
+        if new_api(fi):
             continue
         for c, fld, kind, node in prog.direct_writes(fi):
             if fld == '_ignore_contract':
@@ -83,7 +92,7 @@ def check(run):
     # who-may-read: the flag influences nothing but the gate
     nrd = 0
     for fi in prog.functions():
-        if fi.outer is not None:
+        if fi.outer is not None or new_api(fi):
             continue
         for n_ in q.walk(fi.node):
             if isinstance(n_, ast.Attribute) and n_.attr == '_ignore_contract' and isinstance(n_.ctx, ast.Load):
